@@ -2,15 +2,20 @@
 //
 // Bounded exhaustive exploration on the real ImathMatrixAlgo code, T in {float,double}:
 //   shrt3d-T            : M = S*H*R*T composed in long double from 8^3 scales (reflections, graded 2^-k) x 29 shears
-//                         (L(1)^3 + generic) x rotation grid x translations: extractSHRT (XYZ, rOrder, Euler&),
+//                         (L(1)^3 + generic) x rotation grid x translations: extractSHRT (XYZ, rOrder and Euler& in all 24 orders),
 //                         extractScaling, extractScalingAndShear, extractAndRemoveScalingAndShear, sansScaling,
 //                         removeScaling, sansScalingAndShear (both overloads), removeScalingAndShear
 //   shrt3d-degenerate-T : zero scales must be reported by every entry point in both exc modes; 1e-30 scales
+//   shrt3d-singular-T   : every singular 3x3 part over {-1,0,1,2} without a zero row: entry points and exc modes agree,
+//                         documented fallbacks; reported when the orthogonalised scale is provably exactly zero
 //   computeRSMatrix-T   : documented mix S_x * R_y * T_A for all four flag combinations
-//   shrt2d              : the Matrix33 versions (includes the known sansScaling/removeScaling translation defect)
+//   shrt2d              : the Matrix33 versions (regular, zero scales, 1e-30 scales, singular parts without a zero row)
 //   svd3x3 / svd4x4     : jacobiSVD on all {-1,0,1,2}^9 and {0,1}^16 ({-1,0,1}^16 thorough) matrices
+//   svd*-scaled, eigen*-scaled : the same lattices multiplied by 2^+-40 (float) / 2^+-300 (double)
+//   svd3x3-graded       : all 3x3 matrices with <= 4 non-zero entries from {+-1, +-2^20, +-2^-20}
 //   eigen3x3 / eigen4x4 : jacobiEigenSolver, min/maxEigenVector on all symmetric L(2) 3x3 and L(1) 4x4 matrices
-//   procrustes          : lattice point sets related by cube rotations x translations x scales; unrelated sets
+//   procrustes          : lattice point sets related by cube rotations x translations x scales; unrelated sets; mirror
+//                         images of spanning sets; related sets plus a zero-weight outlier; all weights zero
 // Oracles are written from the definitions in long double / exact integers (c11_ref.hpp, c12.hpp) and never call
 // the library. Tolerances are stated at the head of each TU.
 #include "c12.hpp"
